@@ -10,26 +10,29 @@ EXTENDS Mount, Json, IOUtils
 Trace == ndJsonDeserialize(IOEnv.TRACE)
 VARIABLES l, failed, stat
 tvars == <<l, failed, stat, mounts, req>>
-Stat0 == [reqs |-> 0, viaMux |-> 0, viaExtra |-> 0, outside |-> 0, nested |-> 0]
+Stat0 == [reqs |-> 0, viaMux |-> 0, qualified |-> 0, withQuery |-> 0, viaExtra |-> 0, outside |-> 0, nested |-> 0]
 TInit == l = 1 /\ failed = {} /\ stat = Stat0 /\ mounts = {} /\ req = <<>>
 
 TMount ==
   /\ l <= Len(Trace) /\ Trace[l].ev = "Mount"
   /\ LET e == Trace[l]
          ms == {e.patterns[k] : k \in DOMAIN e.patterns}
-         ens == {MountEntry(p) : p \in ms} \cup {ExtraEntry(e.extras[k].pat, e.extras[k].tag) : k \in DOMAIN e.extras}
-         sel == Selected(ens, e.path)
+         ens == {MountEntry(p) : p \in ms} \cup {ExtraEntry(e.extras[k]) : k \in DOMAIN e.extras}
+         rq == [path |-> e.path, host |-> e.host, meth |-> e.meth]
+         sel == Selected(ens, rq)
          stripped == Len(sel.segs)
          bad == IF e.crash # "" THEN {"Crash"}
                 ELSE IF sel.kind = "mux" THEN
                   (IF \E k \in DOMAIN e.bares : e.bares[k].n = stripped /\ e.bares[k].digest = e.got THEN {} ELSE {"PrefixTransparent"})
                 ELSE IF sel.kind = "extra" THEN (IF e.gottag = sel.tag THEN {} ELSE {"ExtraHandlersKept"})
-                ELSE (IF e.gottag = "servemux404" THEN {} ELSE {"OutsideNotServed"})
+                ELSE (IF e.gottag = OwnAnswer(ens, rq) THEN {} ELSE {"OutsideNotServed"})
      IN /\ failed' = failed \cup {<<e.case, l, f>> : f \in bad}
         /\ stat' = [stat EXCEPT !.reqs = @ + 1, !.viaMux = @ + (IF sel.kind = "mux" THEN 1 ELSE 0),
                                 !.viaExtra = @ + (IF sel.kind = "extra" THEN 1 ELSE 0),
                                 !.outside = @ + (IF sel.kind = "none" THEN 1 ELSE 0),
-                                !.nested = @ + (IF Len(e.bares) > 1 THEN 1 ELSE 0)]
+                                !.nested = @ + (IF Len(e.bares) > 1 THEN 1 ELSE 0),
+                                !.qualified = @ + (IF \E en \in ens : en.host # "" \/ en.meth # "" THEN 1 ELSE 0),
+                                !.withQuery = @ + (IF e.query # "" THEN 1 ELSE 0)]
   /\ l' = l + 1 /\ UNCHANGED <<mounts, req>>
 TSpec == TInit /\ [][TMount]_tvars
 Report == l > Len(Trace) =>
